@@ -104,7 +104,7 @@ def bookkeeping_program(cls_name, N, n_ops, tier_quick=True):
                     ctx.check(buf.priority.priority[int(slot)] == before, "new-transition-receives-the-current-maximum-priority")
                     ctx.log.append("add")
                 elif op == 1:
-                    out = buf.sample_batch(1 if tier_quick else 2, RngStub(f"rng{i}"))
+                    out = buf.sample_batch(1, RngStub(f"rng{i}"))
                     last = [int(x) for x in (buf.priority.sampled_indices if cls_name == "LAP" else getattr(buf, "sampled_indices", buf.priority.sampled_indices))]
                     for ix in last:
                         ctx.check((0 <= ix) & (ix < len(buf)), "sampled-index-within-the-filled-region")
